@@ -1936,6 +1936,12 @@ class Tensor:
 
         if not _track.TRACK_GRAPH:
             self.data.shape = newshape
+            if self._grad is not None:
+                # the gradient must keep matching the shape of the tensor
+                try:
+                    self._grad.shape = self.data.shape
+                except AttributeError:
+                    self._grad = self._grad.reshape(self.data.shape)
             return
 
         if newshape == self.shape:
